@@ -174,7 +174,9 @@ class Echo(object):
         req = simnet.parse_scp(data)
         cid, = struct.unpack_from("<I", req["body"])
         self.executed[cid] = self.executed.get(cid, 0) + 1
-        return simnet.make_reply(req, 0x80, (cid, 0xabc, self.executed[cid]))
+        src = (0, 0) if (req["dest_x"], req["dest_y"]) == (255, 255) else None
+        return simnet.make_reply(req, 0x80, (cid, 0xabc, self.executed[cid]),
+                                 src=src)
 
 
 def run_connection(T, timeout, bursts, buffer_size=256, seq_start=0,
@@ -266,7 +268,12 @@ def run_connection(T, timeout, bursts, buffer_size=256, seq_start=0,
             data = [b"", b"", b"{\0\0\0", b"}\0\0\0{", b"{0}", b"{x!r:>9}",
                     b"%s %d %(a)s \\", bytes(range(120, 130)),
                     b"\xff\xfe{}\n"][cid % 9]
-            calls.append(sc.scpcall(cid % 200, (cid >> 3) % 200, cid % 18,
+            # every seventh command goes to (255, 255), the documented
+            # alias of the chip at the end of the connection - which answers
+            # from its real coordinates
+            dx_, dy_ = (255, 255) if cid % 7 == 3 else \
+                (cid % 200, (cid >> 3) % 200)
+            calls.append(sc.scpcall(dx_, dy_, cid % 18,
                                     2 + cid % 3, cid, cid ^ 0x55, 7,
                                     data, cb, extra))
         sel0 = net.n_select
